@@ -628,6 +628,7 @@ c.modifies("contents(self._processes)", "G.started", "G.pid_live", "G.proc_of_pi
 
 c = M.contract(f"{PPE}.submit", props=["C02", "C03", "C05", "C07", "C08"])
 c.param("self", T.Ref(PPE)).param("fn", T.Obj).varargs("args").kwargs("kwargs")
+c.returns(T.Ref("Future"))
 c.rely("registered-pids-are-live-children", "forall(Int, lambda k: implies(k in self._processes, G.pid_live[k]))", "A-pids")
 c.rely("ids-queued-are-pending", "forall(Int, lambda k: implies(G.work_ids[k], k in self._pending_work_items))", "A-atomic")
 c.rely("ids-below-the-counter", "forall(Int, lambda k: implies(k in self._pending_work_items, k < self._queue_count))", "A-atomic")
@@ -772,6 +773,7 @@ SETUP = "call:ProcessPoolExecutor._setup_queues"
 CHK = "call:_check_max_depth"
 c.ensures("init/max-workers-as-given-or-cpu-count",
           "self._max_workers == ite(is_none(max_workers), log_arg('call:cpu_count', 0, 0), the(max_workers)) and self._max_workers >= 1", prop="C08")
+c.ensures("init/max-workers-as-given", "implies(not is_none(max_workers), self._max_workers == the(max_workers)) and self._max_workers >= 1", prop=["C08", "C09"])
 c.raises("init/non-positive-max-workers-rejected", "ValueError",
          post=f"not is_none(max_workers) and the(max_workers) <= 0 and log_count('new_lock') == 0 and log_count('{SETUP}') == 0", prop="C08")
 c.ensures("init/depth-checked-before-any-resource",
